@@ -1311,8 +1311,10 @@ evbuffer_remove_buffer(struct evbuffer *src, struct evbuffer *dst,
 	/* short-cut if there is no more data buffered */
 	if (datlen >= src->total_len) {
 		datlen = src->total_len;
-		evbuffer_add_buffer(dst, src);
-		result = (int)datlen; /*XXXX should return ev_ssize_t*/
+		if (evbuffer_add_buffer(dst, src) < 0)
+			result = -1;
+		else
+			result = (int)datlen; /*XXXX should return ev_ssize_t*/
 		goto done;
 	}
 
@@ -1351,10 +1353,15 @@ evbuffer_remove_buffer(struct evbuffer *src, struct evbuffer *dst,
 
 	/* we know that there is more data in the src buffer than
 	 * we want to read, so we manually drain the chain */
-	evbuffer_add(dst, chain->buffer + chain->misalign, datlen);
-	chain->misalign += datlen;
-	chain->off -= datlen;
-	nread += datlen;
+	if (evbuffer_add(dst, chain->buffer + chain->misalign, datlen) == 0) {
+		chain->misalign += datlen;
+		chain->off -= datlen;
+		nread += datlen;
+	} else if (nread == 0) {
+		/* nothing was moved at all */
+		result = -1;
+		goto done;
+	}
 
 	/* You might think we would want to increment dst->n_add_for_cb
 	 * here too.  But evbuffer_add above already took care of that.
